@@ -16,11 +16,20 @@
 //                     login <slot> sess=<new|i> sch=code who=<k> guess=<ok|bad>
 //                     login <slot> sess=<new|i> sch=basic who=<k> pw=<ok|bad>
 //                     login <slot> sess=<new|i> sch=bogus
+//                     reset <slot> who=<k> [known=0]          {login scheme=reset}: the REAL authSecretReset; the code
+//                                                             it hands to the validator is kept in <slot>
+//                     login <slot> sess=<new|i> sch=code src=<reset slot> guess=<ok|bad>
+//                     acccred <slot> who=<k>                  {acc} adding a credential on a session of <k>: the temporary
+//                                                             token replyUpdateUser hands to the validator -> <slot>
+//                     accnew <slot>                           {acc user=new} with a credential: the temporary token
+//                                                             replyCreateUser hands to the validator -> <slot>
 //                     end
 // Output (VERIF_OUT): scn <id>
 //                     iss <slot> <ok|err> tok=<hex> exp=<ns> t0=<ns> t1=<ns> uid=<n>
 //                     r <slot> code=<ctrl code> before=<uid>,<lvl> after=<uid>,<lvl> tok=<hex|-> exp=<ns|->
 //                       t0=<ns> t1=<ns> ptok=<hex|-> uid=<n> [bexp=<ns|0>] [cexp=<ns>] user=<uid in params> panic=<0|text>
+//                     reset <slot> code=<ctrl code> sent=<0|1> t0=<ns> t1=<ns> uid=<n> cexp=<ns>
+//                     tmp <slot> code=<ctrl code> tok=<hex|-> t0=<ns> t1=<ns> uid=<n>
 //                     end
 package main
 
@@ -74,6 +83,41 @@ func c12xFresh(name string) auth.AuthHandler {
 	return reflect.New(reflect.TypeOf(h).Elem()).Interface().(auth.AuthHandler)
 }
 
+// credential validator that keeps what the server hands it: the temporary token of a validation
+// request (replyCreateUser / replyUpdateUser) and the reset code of authSecretReset
+type c12xVld struct{}
+
+var c12xSent struct {
+	tmpToken []byte
+	code     []byte
+	cred     string
+	n        int
+}
+
+func (c12xVld) Init(string) error   { return nil }
+func (c12xVld) IsInitialized() bool { return true }
+func (c12xVld) PreCheck(cred string, params map[string]interface{}) (string, error) {
+	return "c12xcred:" + cred, nil
+}
+func (c12xVld) Request(user types.Uid, cred, lang, resp string, tmpToken []byte) (bool, error) {
+	c12xSent.tmpToken = append([]byte{}, tmpToken...)
+	c12xSent.n++
+	if _, err := store.Users.UpsertCred(&types.Credential{User: user.String(), Method: "c12xcred", Value: cred, Resp: "good"}); err != nil {
+		return false, err
+	}
+	return true, nil
+}
+func (c12xVld) ResetSecret(cred, scheme, lang string, tmpToken []byte, params map[string]interface{}) error {
+	c12xSent.code = append([]byte{}, tmpToken...)
+	c12xSent.cred = cred
+	c12xSent.n++
+	return nil
+}
+func (c12xVld) Check(user types.Uid, resp string) (string, error) { return "", types.ErrCredentials }
+func (c12xVld) Remove(types.Uid, string) error                     { return nil }
+func (c12xVld) Delete(types.Uid) error                             { return nil }
+func (c12xVld) TempAuthScheme() (string, error)                    { return "code", nil }
+
 var c12x struct {
 	once    sync.Once
 	bexp    map[string]time.Time // expiry of the basic auth record of fixture accounts (zero = none)
@@ -84,6 +128,7 @@ func c12xInit(t *testing.T) {
 	c11Init(t)
 	c12x.once.Do(func() {
 		c12x.bexp = map[string]time.Time{}
+		store.RegisterValidator("c12xcred", c12xVld{})
 		// two more accounts whose password records expire in the future: the basic authenticator
 		// reports the remaining validity as rec.Lifetime
 		mk := func(key string, lvl auth.Level, d time.Duration, withCred bool) {
@@ -126,6 +171,7 @@ type c12xScn struct {
 	tok    auth.AuthHandler
 	code   auth.AuthHandler
 	slots  map[string][]byte
+	codes  map[string][2]string // reset slot -> (code, credential "method:value")
 	sess   []*vSess
 	n      int
 	broken string
@@ -162,10 +208,12 @@ func (sc *c12xScn) start(kv map[string]string) {
 	}
 	sc.saved = store.Store
 	store.Store = &c12xStore{PersistentStorageInterface: sc.saved, tok: sc.tok, code: sc.code}
+	globals.validators = map[string]credValidator{"c12xcred": {}}
 	if kv["vld"] == "1" {
 		globals.authValidators = map[auth.Level][]string{auth.LevelAuth: {"verifcred"}, auth.LevelRoot: {"verifcred"}}
-		globals.validators = map[string]credValidator{"verifcred": {requiredAuthLvl: []auth.Level{auth.LevelAuth, auth.LevelRoot}}}
+		globals.validators["verifcred"] = credValidator{requiredAuthLvl: []auth.Level{auth.LevelAuth, auth.LevelRoot}}
 	}
+	sc.codes = map[string][2]string{}
 }
 
 func (sc *c12xScn) finish() {
@@ -244,6 +292,20 @@ func (sc *c12xScn) login(slot string, kv map[string]string) {
 		}
 		ptok = vHex(secret)
 	case "code":
+		if src, ok := kv["src"]; ok {
+			// the code authSecretReset handed to the validator for this credential
+			cc := sc.codes[src]
+			code := []byte(cc[0])
+			if kv["guess"] == "bad" && len(code) > 0 {
+				if code[0] == '9' {
+					code[0] = '0'
+				} else {
+					code[0]++
+				}
+			}
+			secret = []byte(string(code) + ":" + cc[1])
+			break
+		}
 		uid = c12xWho(kv["who"])
 		c12x.credSeq++
 		cred := "email:c12x" + kv["who"] + "x" + strconv.Itoa(c12x.credSeq) + "x" + strconv.FormatInt(time.Now().UnixNano()%1000000007, 36) + "@example.com"
@@ -314,6 +376,104 @@ func (sc *c12xScn) login(slot string, kv map[string]string) {
 		slot, code, before, uint64(s.uid), int(s.authLvl), tok, exp, t0, t1, ptok, uint64(uid), extra, user, panicked)
 }
 
+func (sc *c12xScn) dispatch(vs *vSess, m *ClientComMessage) (code int, params map[string]any, t0, t1 int64, panicked string) {
+	raw, _ := json.Marshal(m)
+	panicked = "0"
+	t0 = time.Now().UnixNano()
+	func() {
+		defer func() {
+			if r := recover(); r != nil {
+				panicked = strings.ReplaceAll(fmt.Sprint(r), " ", "_")
+			}
+		}()
+		vs.s.dispatchRaw(raw)
+	}()
+	t1 = time.Now().UnixNano()
+	if hang := vWaitQuiet(c11.quiet); hang != "" {
+		panicked += ":" + strings.ReplaceAll(hang, " ", "_")
+	}
+	for _, f := range vs.take() {
+		if f.Ctrl != nil {
+			code = f.Ctrl.Code
+			params, _ = f.Ctrl.Params.(map[string]any)
+		}
+	}
+	return
+}
+
+// {login scheme=reset secret="basic:c12xcred:<value>"} on a fresh session; the credential is a validated
+// credential of <who> created for this op (known=0: nobody's)
+func (sc *c12xScn) reset(slot string, kv map[string]string) {
+	if sc.broken != "" {
+		fmt.Fprintf(sc.out, "reset %s broken %s\n", slot, sc.broken)
+		return
+	}
+	uid := c12xWho(kv["who"])
+	c12x.credSeq++
+	value := "r" + kv["who"] + "x" + strconv.Itoa(c12x.credSeq) + "x" + strconv.FormatInt(time.Now().UnixNano()%1000000007, 36)
+	if kv["known"] != "0" {
+		// an account that does not exist (any more) cannot own a credential: the reset is then one for an unknown credential
+		if _, err := store.Users.UpsertCred(&types.Credential{User: uid.String(), Method: "c12xcred", Value: value, Resp: "good"}); err == nil {
+			store.Users.ConfirmCred(uid, "c12xcred")
+		}
+	}
+	vs := c11NewSession(22, types.ZeroUid, auth.LevelNone)
+	sc.sess = append(sc.sess, vs)
+	sc.n++
+	before := c12xSent.n
+	c12xSent.code, c12xSent.cred = nil, ""
+	code, _, t0, t1, panicked := sc.dispatch(vs, &ClientComMessage{Login: &MsgClientLogin{Id: strconv.Itoa(sc.n), Scheme: "reset",
+		Secret: []byte("basic:c12xcred:" + value)}})
+	sent := 0
+	if c12xSent.n > before && len(c12xSent.code) > 0 {
+		sent = 1
+		sc.codes[slot] = [2]string{string(c12xSent.code), "c12xcred:" + c12xSent.cred}
+	}
+	fmt.Fprintf(sc.out, "reset %s code=%d sent=%d t0=%d t1=%d uid=%d after=%d,%d panic=%s\n", slot, code, sent, t0, t1, uint64(uid),
+		uint64(vs.s.uid), int(vs.s.authLvl), panicked)
+}
+
+// the temporary token handed to the validator by {acc}: adding a credential to the account of an
+// authenticated session (replyUpdateUser), or creating an account with a credential (replyCreateUser)
+func (sc *c12xScn) acc(slot string, kv map[string]string, create bool) {
+	if sc.broken != "" {
+		fmt.Fprintf(sc.out, "tmp %s broken %s\n", slot, sc.broken)
+		return
+	}
+	c12x.credSeq++
+	uniq := strconv.Itoa(c12x.credSeq) + "x" + strconv.FormatInt(time.Now().UnixNano()%1000000007, 36)
+	var vs *vSess
+	var m *ClientComMessage
+	uid := types.ZeroUid
+	sc.n++
+	creds := []MsgCredClient{{Method: "c12xcred", Value: "a" + uniq}}
+	if create {
+		vs = c11NewSession(22, types.ZeroUid, auth.LevelNone)
+		m = &ClientComMessage{Acc: &MsgClientAcc{Id: strconv.Itoa(sc.n), User: "new", Scheme: "basic",
+			Secret: []byte("c12x" + uniq + ":secret" + uniq), Cred: creds}}
+	} else {
+		uid = c12xWho(kv["who"])
+		vs = c11NewSession(22, uid, auth.LevelAuth)
+		m = &ClientComMessage{Acc: &MsgClientAcc{Id: strconv.Itoa(sc.n), Cred: creds}}
+	}
+	sc.sess = append(sc.sess, vs)
+	before := c12xSent.n
+	c12xSent.tmpToken = nil
+	code, params, t0, t1, panicked := sc.dispatch(vs, m)
+	if create && params != nil {
+		if u, ok := params["user"].(string); ok {
+			uid = types.ParseUserId(u)
+			c11.quiet = append(c11.quiet, u)
+		}
+	}
+	tok := "-"
+	if c12xSent.n > before && len(c12xSent.tmpToken) > 0 {
+		tok = vHex(c12xSent.tmpToken)
+		sc.slots[slot] = c12xSent.tmpToken
+	}
+	fmt.Fprintf(sc.out, "tmp %s code=%d tok=%s t0=%d t1=%d uid=%d panic=%s\n", slot, code, tok, t0, t1, uint64(uid), panicked)
+}
+
 func TestVerifC12x(t *testing.T) {
 	c12xInit(t)
 	fin, err := os.Open(os.Getenv("VERIF_IN"))
@@ -345,6 +505,12 @@ func TestVerifC12x(t *testing.T) {
 			sc.issue(w[1], vKV(w[2:]))
 		case "login":
 			sc.login(w[1], vKV(w[2:]))
+		case "reset":
+			sc.reset(w[1], vKV(w[2:]))
+		case "acccred":
+			sc.acc(w[1], vKV(w[2:]), false)
+		case "accnew":
+			sc.acc(w[1], vKV(w[2:]), true)
 		case "end":
 			sc.finish()
 			fmt.Fprintln(out, "end")
